@@ -430,3 +430,49 @@ extern "C"
     return t;
   }
 }
+
+// ---- libstdc++'s futex waits (std::future/std::promise/std::shared_future::wait, std::async): the wait itself is a
+// futex system call made inside libstdc++.so - not a pthread primitive - and would block the thread that holds the
+// baton. The library funnels all of them through these three members of __atomic_futex_unsigned_base; defined here, the
+// executable's definitions take precedence over the library's. A waiter blocks in the model until the word changes; the
+// happens-before edge comes from the atomic operations on the word around the wait (inline in the headers).
+#include <future>
+#if defined(_GLIBCXX_HAVE_LINUX_FUTEX) && ATOMIC_INT_LOCK_FREE > 1
+namespace
+{
+  bool futex_model_wait(unsigned* addr, unsigned val, bool has_timeout)
+  {
+    yield("futex_wait");
+    if(__atomic_load_n(addr, __ATOMIC_SEQ_CST) != val) return true;
+    if(has_timeout) return false;   // timed waits never sleep in the model: the caller sees a timeout and polls again
+    ModelGuard g;
+    std::function<bool()> ready = [addr, val]() { return __atomic_load_n(addr, __ATOMIC_SEQ_CST) != val; };
+    probe("futex_wait_blocked");
+    block_until(ready, "futex");
+    return true;
+  }
+  typedef long (*syscall_fn_t)(long, ...);
+}
+namespace std
+{
+  bool __atomic_futex_unsigned_base::_M_futex_wait_until(unsigned* addr, unsigned val, bool has_timeout, chrono::seconds s, chrono::nanoseconds ns)
+  {
+    if(active() && M) return futex_model_wait(addr, val, has_timeout);
+    // outside a simulation: plain futex wait without timeout handling beyond "wake up and let the caller re-check"
+    (void)s; (void)ns;
+    static syscall_fn_t sc = (syscall_fn_t)dlsym(RTLD_NEXT, "syscall");
+    sc(202 /* SYS_futex */, addr, 0 /* FUTEX_WAIT */, val, nullptr, nullptr, 0);
+    return true;
+  }
+  bool __atomic_futex_unsigned_base::_M_futex_wait_until_steady(unsigned* addr, unsigned val, bool has_timeout, chrono::seconds s, chrono::nanoseconds ns)
+  {
+    return _M_futex_wait_until(addr, val, has_timeout, s, ns);
+  }
+  void __atomic_futex_unsigned_base::_M_futex_notify_all(unsigned* addr)
+  {
+    if(active() && M) { yield("futex_notify"); return; }   // blocked model tasks re-evaluate their predicate
+    static syscall_fn_t sc = (syscall_fn_t)dlsym(RTLD_NEXT, "syscall");
+    sc(202, addr, 1 /* FUTEX_WAKE */, 0x7fffffff, nullptr, nullptr, 0);
+  }
+}
+#endif
